@@ -9,12 +9,22 @@ def unique_id() -> str:
     return "".join(random.choices("abcdefghijklmnopqrstuvwxyz", k=10))
 
 
-def convert_slice(_slice: Slice) -> Call:
+def convert_slice(
+    _slice: expr, cvt: typing.Callable[[expr], expr] = lambda v: v
+) -> expr:
     """
     Convert slice expt to a call of slice function
     to prevent invalid syntax like `__setitem__(0:10:2, value)`
+
+    Slices inside a tuple index (`a[1:2, 3]`) are converted too.
+    `cvt` converts the sub-expressions written by the user; the
+    generated name `slice` is not a name of the user's program.
     """
-    _slice_value = lambda v: Constant(None) if v is None else v
+    if isinstance(_slice, Tuple) and any(isinstance(e, Slice) for e in _slice.elts):
+        return Tuple(elts=[convert_slice(e, cvt) for e in _slice.elts], ctx=Load())
+    if not isinstance(_slice, Slice):
+        return cvt(_slice)
+    _slice_value = lambda v: Constant(None) if v is None else cvt(v)
     return Call(
         func=Name(id="slice", ctx=Load()),
         args=[
